@@ -459,6 +459,9 @@ class Layout:
             elif tag in "nq":
                 self.num(p, 2)
             elif tag in "iuh":
+                self.pad(4)
+                if tag == "h":
+                    self.marks.append(("fd", len(self.buf), 4))
                 self.num(p, 4)
             elif tag in "xtd":
                 self.num(p, 8)
@@ -469,6 +472,8 @@ class Layout:
                 self.num(len(data), 4)
                 if data:
                     self.marks.append(("sbody", len(self.buf), len(data)))
+                    if tag == "o":
+                        self.marks.append(("opath", len(self.buf), len(data)))
                 self.buf += data
                 self.marks.append(("term", len(self.buf), 1))
                 self.buf.append(0)
@@ -478,6 +483,7 @@ class Layout:
                 self.buf.append(len(data) % 256)
                 if data:
                     self.marks.append(("sbody", len(self.buf), len(data)))
+                    self.marks.append(("gsig", len(self.buf), len(data)))
                 self.buf += data
                 self.marks.append(("term", len(self.buf), 1))
                 self.buf.append(0)
@@ -526,11 +532,11 @@ def layout(be, off, toks):
 
 SIGS_BY_ALIGN = {1: ["y", "g", "v"], 2: ["n", "q"], 4: ["u", "i", "b", "s", "o", "ay", "as", "a{sv}"], 8: ["t", "x", "d", "(yy)", "(t)"]}
 CORRUPTION_CLASSES = ["pad-nonzero", "len-1", "len+1", "len-4", "len+4", "len-8", "len+8", "len=2^26+1", "bool=2", "bool-other", "nul-in-string",
-                      "terminator-nonzero", "siglen+-1", "vsig-same-align", "vsig-other-align", "vsig-two-types", "vsig-empty", "vsig-invalid",
+                      "terminator-nonzero", "path-invalid", "sig-invalid", "fd-index=count", "fd-index=count+1", "fd-index=2^31", "fd-index=2^32-1", "siglen+-1", "vsig-same-align", "vsig-other-align", "vsig-two-types", "vsig-empty", "vsig-invalid",
                       "nonzero", "bump", "len", "lenoff", "trunc", "utf8", "extend"]
 
 
-def aimed_corruptions(r, be, off, toks, enc, extra=6, all_padding=False):
+def aimed_corruptions(r, be, off, toks, enc, extra=6, all_padding=False, nfds=0):
     """single-fault corruptions of the valid encoding `enc` (= the specification's bytes of `toks` at offset `off`): one of
     EVERY class that applies to this value (CORRUPTION_CLASSES; aimed with the layout marks), plus `extra` of the untargeted
     ones of corruptions().  Yields (class, bytes)."""
@@ -586,6 +592,45 @@ def aimed_corruptions(r, be, off, toks, enc, extra=6, all_padding=False):
     if terms:
         (_, p, _) = r.choice(terms)
         put("terminator-nonzero", p, bytes([r.choice([1, 0x61, 255])]))
+    # ---- the CONTENT of an object path / signature leaf: same length, terminator in place, text invalid
+    paths = by.get("opath", [])
+    if paths:
+        (_, p, n) = r.choice(paths)
+        body = bytearray(enc[p:p + n])
+        how = r.choice(["no-slash", "trailing-slash", "double-slash", "bad-char"]) if n >= 3 else r.choice(["no-slash", "trailing-slash"])
+        if how == "no-slash":
+            body[0] = 0x61
+        elif how == "trailing-slash" and n >= 2:
+            body[n - 1] = 0x2F
+        elif how == "double-slash":
+            i = r.randrange(0, n - 1)
+            body[i] = body[i + 1] = 0x2F
+            body[n - 1] = 0x2F if i + 1 == n - 1 else body[n - 1]
+        else:
+            body[r.randrange(1, n) if n > 1 else 0] = r.choice([0x2D, 0x2E, 0x20, 0x40])
+        if bytes(body) != enc[p:p + n]:
+            put("path-invalid", p, bytes(body))
+    gs = by.get("gsig", [])
+    if gs:
+        (_, p, n) = r.choice(gs)
+        body = bytearray(enc[p:p + n])
+        how = r.choice(["unknown-code", "all-arrays", "open-struct", "close-first"])
+        if how == "unknown-code":
+            body[r.randrange(n)] = r.choice([0x7A, 0x7B, 0x21, 0x65, 0x72, 0x6D])       # z { ! e r m
+        elif how == "all-arrays":
+            body[:] = b"a" * n
+        elif how == "open-struct":
+            body[n - 1] = 0x28
+        else:
+            body[0] = 0x29
+        if bytes(body) != enc[p:p + n]:
+            put("sig-invalid", p, bytes(body))
+    # ---- descriptor indices at and beyond the message's descriptor count
+    fds = by.get("fd", [])
+    if fds:
+        for name, v in (("fd-index=count", nfds), ("fd-index=count+1", nfds + 1), ("fd-index=2^31", 1 << 31), ("fd-index=2^32-1", (1 << 32) - 1)):
+            (_, p, _) = r.choice(fds)
+            put(name, p, v.to_bytes(4, order))
     glens = by.get("glen", []) + [("glen", m[1], 1) for m in by.get("vsig", [])]
     if glens:
         (_, p, _) = r.choice(glens)
@@ -676,6 +721,9 @@ def big_cases(r, thorough):
     out.append(("len>=64KiB/8-byte-elements", "a(tt)", _arr("(tt)", [["r", "2"] + w64("t") + w64("t") for _ in range(n)])))
     out.append(("len>=64KiB/8-byte-elements", "(yat)", ["r", "2", "y", "7"] + _arr("t", [w64("t") for _ in range(8192)])))
     if thorough:
+        # byte 3 of a length field: 3 strings of 6 MiB in one array. No extracted function is run on this value (see model_cheap):
+        # it is judged by the plain encoder Layout, which every run compares byte for byte with the specification on all other values
+        out.append(("len>=16MiB", r.choice(["as", "aCs", "aRs"]), _arr("s", [["s", hx(_text(1, r) * (6 << 20))] for _ in range(3)])))
         keys = r.sample(range(1 << 40), 4100)
         out.append(("len>=64KiB/8-byte-elements", "a{tt}", ["e", "t", "t", "4100"] + [x for k in keys for x in (["t", str(k)] + w64("t"))]))
         out.append(("len>=64KiB/8-byte-elements", "aat", _arr("at", [_arr("t", [w64("t") for _ in range(n)]) for n in (8192, 0, 8193)])))
@@ -732,6 +780,8 @@ def model_cheap(op, bo, toks):
     of 4096 structs: 80 s), while the memcpy path of the native byte order, raw validation of fixed-width arrays (one
     length check), long strings and the specification encoder are linear. toks = the value (for a decoder line: the value
     the bytes were made from)."""
+    if sum(len(x) for x in toks) > 4000000:
+        return False          # megabytes of payload: even the specification encoder needs gigabytes and minutes on N lists
     if len(toks) < 3000 or op == "SE":
         return True
     tree, _ = parse_tokens(list(toks), 0)
